@@ -22,7 +22,9 @@ def jobs(tier, seed):
         if tier == 'quick' and j['name'] in ('labels_more', 'desc255'): continue
         if j['name'] == 'align' and j['opts']['extras'][0]['desc_len'] % 32 != 31: continue      # the alignment sweep is C04's subject; keep the 255-character cases
         out.append(dict(j, family='load-save-load'))
-    for j in histcommon.hist_jobs(tier, seed, finish=1): out.append(dict(j, family='history'))
+    for j in histcommon.hist_jobs(tier, seed, finish=1):
+        if tier == 'quick' and j['cfg']['start'] in (1, 3): continue      # quick: fresh, populated and fewer-labels start states (the others are C05/C07/C10's daily runs, same monitors)
+        out.append(dict(j, family='history'))
     for j in c06.jobs(tier, seed): out.append(dict(j, family='frame-store'))
     for j in c08.jobs(tier, seed): out.append(dict(j, family='aliasing'))
     for j in c09.jobs(tier, seed):
@@ -38,7 +40,11 @@ def run_job(engine, job):
     files = None; assume = None; fam = job['family']
     if fam == 'load-save-load':
         S, c, lay, cells = c02.build_file(job); files = {'in.c3d': gen.to_engine_cells(cells)}; assume = S.cons
-    elif fam in ('history', 'tree-edits') and job['cfg'].get('start') in (1, 3) and (fam == 'tree-edits' and job['cfg']['start'] == 1 or fam == 'history' and job['cfg']['start'] == 3):
+    elif fam == 'history' and job['cfg'].get('start') in (3, 4):
+        S, cells = histcommon.start_file(fewer=job['cfg']['start'] == 4); files = {'in.c3d': gen.to_engine_cells(cells)}; assume = S.cons
+    elif fam == 'tree-edits' and job['cfg'].get('start') == 2:
+        S, cells = c09.dup_group_file(); files = {'in.c3d': gen.to_engine_cells(cells)}; assume = S.cons
+    elif fam == 'tree-edits' and job['cfg'].get('start') == 1:
         S, cells = histcommon.start_file(); files = {'in.c3d': gen.to_engine_cells(cells)}; assume = S.cons
     elif fam == 'look-ups' and ((job['entry'] == 'h_c11_pos' and job['cfg']['kind'] >= 6) or (job['entry'] == 'h_c11_misc' and job['cfg']['what'] == 0 and job['cfg']['type'] == 1)):
         S, fc, cells = c11.event_file(); files = {'in.c3d': gen.to_engine_cells(cells)}; assume = S.cons
